@@ -209,13 +209,21 @@ impl SubSocket {
 #[async_trait]
 impl Socket for SubSocket {
     fn with_options(options: SocketOptions) -> Self {
-        let fair_queue = FairQueue::new(true);
+        let mut fair_queue = FairQueue::new(true);
+        let backend = Arc::new(SubSocketBackend::with_options(
+            Some(fair_queue.inner()),
+            SocketType::SUB,
+            options,
+        ));
+        // A peer that closes its connection cleanly is forgotten like one that fails.
+        let weak_backend = Arc::downgrade(&backend);
+        fair_queue.set_on_stream_end(move |peer_id| {
+            if let Some(backend) = weak_backend.upgrade() {
+                backend.peer_disconnected(peer_id);
+            }
+        });
         Self {
-            backend: Arc::new(SubSocketBackend::with_options(
-                Some(fair_queue.inner()),
-                SocketType::SUB,
-                options,
-            )),
+            backend,
             fair_queue,
             binds: HashMap::new(),
         }
